@@ -381,4 +381,6 @@ RULES = [
     ("C17.CLOSED", "quick", rule_closed),
     ("C17.FLUSH", "quick", rule_flush),
     ("C17.SAME-SESSION", "quick", borrowed("c13", "rule_srv_gates", "C13.SRV-GATES", "C17.SAME-SESSION")),
+    # a session marked not resumable by a fatal error is never offered or accepted again
+    ("C17.INVALIDATE", "quick", borrowed("c13", "rule_invalidate", "C13.INVALIDATE", "C17.INVALIDATE")),
 ]
